@@ -856,3 +856,85 @@ Qed.
 Theorem shape_arrowhead_complete (g : list N -> bool) v :
   DocDomain g CArrow KShape v -> accepts g CArrow KShape v = true.
 Proof. cbn [DocDomain accepts]. intro H. apply is_arrowhead_spec in H. rewrite H. apply orb_true_r. Qed.
+
+(* ================================================================ accepted values reach the graph unchanged *)
+Definition lower_char (r : N) : Prop := r < 128 /\ lowerA r = r.
+Definition lower_table (tbl : list (list N)) : bool :=
+  forallb (forallb (fun r => (r <? 128) && (lowerA r =? r))) tbl.
+
+Lemma lower_tables :
+  lower_table shapes && lower_table arrowheads && lower_table fonts && lower_table directions = true.
+Proof. vm_compute. reflexivity. Qed.
+
+Lemma lower_table_word tbl w : lower_table tbl = true -> In w tbl -> Forall lower_char w.
+Proof.
+  unfold lower_table. rewrite forallb_forall. intros H Hw. specialize (H w Hw).
+  apply forallb_Forall in H. eapply Forall_impl; [|exact H]. cbn. intros a Ha. unfold lower_char. lia.
+Qed.
+
+Lemma go_lower_encode l :
+  Forall (fun r => r = long_s \/ lower_char r) l -> go_lower (encode_lower l) = l.
+Proof.
+  induction 1 as [|r l Hr _ IH]; [reflexivity|].
+  unfold encode_lower in *. cbn [flat_map].
+  destruct Hr as [-> | [Hlt Hfix]].
+  - change (long_s =? long_s) with true. cbn [app]. rewrite go_lower_long_s, IH. reflexivity.
+  - assert ((r =? long_s) = false) as -> by (unfold long_s; lia).
+    cbn [app]. rewrite go_lower_ascii by exact Hlt. rewrite Hfix, IH. reflexivity.
+Qed.
+
+Lemma fold_s_chars l w : fold_s l = w -> Forall lower_char w -> Forall (fun r => r = long_s \/ lower_char r) l.
+Proof.
+  revert w. induction l as [|r l IH]; intros w E F; [constructor|].
+  cbn [fold_s map] in E. subst w. inversion F as [|? ? Hr Hl]; subst. constructor.
+  - destruct (r =? long_s) eqn:Er; [left; apply N.eqb_eq; exact Er | right; exact Hr].
+  - apply (IH (fold_s l)); [reflexivity | exact Hl].
+Qed.
+
+Lemma lower_chars_plain l : Forall lower_char l -> Forall (fun r => r = long_s \/ lower_char r) l.
+Proof. intro H. eapply Forall_impl; [|exact H]. cbn. auto. Qed.
+
+Lemma go_lower_nil v : go_lower v = [] -> v = [].
+Proof. destruct v as [|c r]; [reflexivity|]. intro E. exfalso. apply (go_lower_nonempty (c :: r)); [discriminate | exact E]. Qed.
+
+(* Property clause 3 on the model: the value the compiler stores is the input, or (keyword-valued
+   attributes) equal to it up to letter case.  Only exception: an empty object shape means "unset"
+   and becomes the default shape. *)
+Theorem accepted_value_unchanged (g : list N -> bool) c k v :
+  accepts g c k v = true -> ~ (c = CObj /\ k = KShape /\ v = []) ->
+  stored c k v = v \/ (keyword_valued k = true /\ go_lower (stored c k v) = go_lower v).
+Proof.
+  intros Acc Hex.
+  pose proof lower_tables as T. repeat (apply andb_prop in T; destruct T as [T ?]).
+  destruct k; try (left; reflexivity).
+  - (* font *) right. split; [reflexivity|]. cbn [stored accepts] in *. apply mem_word_In in Acc.
+    apply go_lower_encode. apply lower_chars_plain. eapply lower_table_word; eauto.
+  - (* direction *) right. split; [reflexivity|]. cbn [stored accepts] in *. apply mem_word_In in Acc.
+    apply go_lower_encode. apply lower_chars_plain. eapply lower_table_word; eauto.
+  - (* shape *)
+    assert (Sh : is_shape v = true -> go_lower v <> [] -> Forall (fun r => r = long_s \/ lower_char r) (go_lower v)).
+    { unfold is_shape. destruct (go_lower v) as [|r l] eqn:E; [congruence|]. intros M _. apply mem_word_In in M.
+      eapply fold_s_chars; [reflexivity | eapply lower_table_word; eauto]. }
+    assert (Ah : is_arrowhead v = true -> Forall (fun r => r = long_s \/ lower_char r) (go_lower v)).
+    { unfold is_arrowhead. intro M. apply mem_word_In in M. apply lower_chars_plain. eapply lower_table_word; eauto. }
+    destruct (go_lower v) as [|r l] eqn:E.
+    + apply go_lower_nil in E. subst v. destruct c; [exfalso; apply Hex; auto | left; reflexivity ..].
+    + right. split; [reflexivity|].
+      assert (St : stored c KShape v = encode_lower (go_lower v)).
+      { cbn [stored]. rewrite E. destruct c; reflexivity. }
+      rewrite St. apply go_lower_encode.
+      assert (Ne : go_lower v <> []) by (rewrite E; discriminate).
+      rewrite <- E in *. cbn [accepts] in Acc. destruct c.
+      * apply Sh; assumption.
+      * apply orb_prop in Acc as [Acc|Acc]; [apply Sh | apply Ah]; assumption.
+      * apply orb_prop in Acc as [Acc|Acc]; [apply Sh | apply Ah]; assumption.
+      * apply orb_prop in Acc as [Acc|Acc]; [apply Sh | apply Ah]; assumption.
+Qed.
+
+(* the boolean clause evaluated by Check.v on the implementation's stored value is this property *)
+Lemma unchanged_clause_sound k v s :
+  (bytes_eqb v s || (keyword_valued k && bytes_eqb (go_lower v) (go_lower s))) = true <->
+  (s = v \/ (keyword_valued k = true /\ go_lower s = go_lower v)).
+Proof.
+  rewrite orb_true_iff, andb_true_iff, !bytes_eqb_eq. split; intros [H|[H1 H2]]; auto.
+Qed.
